@@ -38,7 +38,10 @@ TDelay == /\ Is("delay") /\ Step
           /\ \E lv \in {level, level'} : LET d == Delays[lv + 1] IN
                IF d = 0 THEN ~Ev.err /\ Ev.took <= Ev.slack
                ELSE IF Ev.ctx > 0 /\ Ev.ctx < d
-                    THEN Ev.err /\ Ev.took < d          \* returned early with the context's error
+                    THEN \/ Ev.err /\ Ev.took <= Ev.ctx + Ev.slack   \* returned with the context's error, when the context ended (one-sided)
+                         \* both timers had expired when the goroutine ran (a select with two ready cases may take
+                         \* either): legal, but it must stay the exception -- the check counts these
+                         \/ ~Ev.err /\ Ev.took >= d - 1 /\ Ev.took <= d + Ev.slack
                     ELSE ~Ev.err /\ Ev.took >= d - 1 /\ Ev.took <= d + Ev.slack
 TNext == TReset0 \/ TSignal \/ TRelease \/ TResetOp \/ TIdle \/ TLevel \/ TDelay
 TSpec == TInit /\ [][TNext]_tvars
